@@ -482,6 +482,10 @@ func (db *MultiBucketBackend) PutObject(
 	objectFilePath := filepath.FromSlash(objectPath)
 	objectDir := filepath.Dir(objectFilePath)
 
+	if err := checkKeyPath(db.bucketFs, bucketName, objectPath); err != nil {
+		return result, err
+	}
+
 	if objectDir != "." {
 		if err := db.bucketFs.MkdirAll(objectDir, db.dirMode); err != nil {
 			return result, err
@@ -573,6 +577,11 @@ func (db *MultiBucketBackend) deleteObjectLocked(bucketName, objectName string) 
 	}
 
 	fullPath := path.Join(bucketName, objectName)
+
+	if stat, err := db.bucketFs.Stat(filepath.FromSlash(fullPath)); err == nil && stat.IsDir() {
+		// A directory is not an object; the keys below it are not this key:
+		return nil
+	}
 
 	// S3 does not report an error when attemping to delete a key that does not exist, so
 	// we need to skip IsNotExist errors.
